@@ -59,6 +59,9 @@ pub enum Break {
     TruncatedAfterSecret,
     UnquotedSecret,
     GarbageAfterSecretLine,
+    /// syntactically valid JSON whose secret-bearing field has the wrong type
+    /// (`"headers": "x-api-key: <secret>"`, `"api_key": ["<secret>"]`, `"api_key": {"value": …}`)
+    MistypedSecretField,
 }
 
 #[derive(Clone, Debug, Serialize, Deserialize, PartialEq)]
@@ -93,6 +96,9 @@ pub struct Scenario {
     pub layers: Vec<Layer>,
     pub env_endpoint: bool,
     pub env_key: EnvKey,
+    /// 0 = as is, 1 = trailing CR (CRLF .env file), 2 = padded with spaces, 3 = trailing newline
+    #[serde(default)]
+    pub env_key_decor: u8,
     pub env_tool_choice_bad: bool,
     pub dump_requests: bool,
     pub unreachable: bool,
@@ -132,12 +138,13 @@ fn gen_layer(rng: &mut Rng, place: Place) -> Layer {
         with_route: rng.chance(3, 4),
         with_endpoint: rng.chance(9, 10),
         broken: if has_secret && rng.chance(1, 4) {
-            Some(match rng.below(5) {
+            Some(match rng.below(7) {
                 0 => Break::MissingCommaBeforeSecret,
                 1 => Break::ControlCharInSecret,
                 2 => Break::TruncatedAfterSecret,
                 3 => Break::UnquotedSecret,
-                _ => Break::GarbageAfterSecretLine,
+                4 => Break::GarbageAfterSecretLine,
+                _ => Break::MistypedSecretField,
             })
         } else {
             None
@@ -197,7 +204,7 @@ pub fn generate(run_seed: u64, tier: Tier) -> Scenario {
         });
     }
     inputs.push(Input::Doctor);
-    Scenario { layers, env_endpoint, env_key, env_tool_choice_bad: rng.chance(1, 8), dump_requests: rng.chance(1, 2), unreachable: rng.chance(1, 8), script, inputs }
+    Scenario { layers, env_endpoint, env_key, env_key_decor: if rng.chance(1, 4) { rng.range(1, 3) as u8 } else { 0 }, env_tool_choice_bad: rng.chance(1, 8), dump_requests: rng.chance(1, 2), unreachable: rng.chance(1, 8), script, inputs }
 }
 
 // ---------------------------------------------------------------------------------------------
@@ -293,6 +300,18 @@ pub fn render_config(l: &Layer, endpoint: &str) -> String {
             }
             Break::GarbageAfterSecretLine => {
                 lines[sl].push_str(" @@@");
+            }
+            Break::MistypedSecretField => {
+                let joined = lines.join("\n");
+                let out = if joined.contains(&format!("\"api_key\": \"{KEY_CANARY}\"")) {
+                    joined.replacen(&format!("\"api_key\": \"{KEY_CANARY}\""), &format!("\"api_key\": [\"{KEY_CANARY}\"]"), 1)
+                } else {
+                    // collapse the headers object into one string "name: value"
+                    let start = joined.find("\"headers\": {").unwrap_or(0);
+                    let end = joined[start..].find('}').map(|e| start + e + 1).unwrap_or(joined.len());
+                    format!("{}\"headers\": \"x-api-key: {HDR_CANARY}\"{}", &joined[..start], &joined[end..])
+                };
+                return out + "\n";
             }
         }
     }
@@ -489,11 +508,17 @@ pub fn execute(sc: &Scenario, env: &Env) -> (Outcome, RunStats) {
                 set("RIP_OPENRESPONSES_ENDPOINT", &endpoint);
                 set("RIP_OPENRESPONSES_MODEL", "scripted-model");
             }
+            let key_value = match sc2.env_key_decor {
+                1 => format!("{KEY_CANARY}\r"),
+                2 => format!("  {KEY_CANARY} "),
+                3 => format!("{KEY_CANARY}\n"),
+                _ => KEY_CANARY.to_string(),
+            };
             match sc2.env_key {
                 EnvKey::None => {}
-                EnvKey::Rip => set("RIP_OPENRESPONSES_API_KEY", KEY_CANARY),
-                EnvKey::OpenAi => set("OPENAI_API_KEY", KEY_CANARY),
-                EnvKey::OpenRouter => set("OPENROUTER_API_KEY", KEY_CANARY),
+                EnvKey::Rip => set("RIP_OPENRESPONSES_API_KEY", &key_value),
+                EnvKey::OpenAi => set("OPENAI_API_KEY", &key_value),
+                EnvKey::OpenRouter => set("OPENROUTER_API_KEY", &key_value),
             }
             if sc2.env_tool_choice_bad {
                 set("RIP_OPENRESPONSES_TOOL_CHOICE", "maybe");
@@ -805,7 +830,7 @@ impl Check for C19 {
         3
     }
     fn rule(&self) -> String {
-        "one run = one seeded scenario: 0-3 configuration layers (global ~/.rip, RIP_CONFIG_HOME, RIP_CONFIG, project rip.json(c) in the workspace or its parent up to the git root; JSON or JSONC) each defining the provider with an inline api_key, an env reference or none, 0-2 headers (secret value, secret with trailing CR / embedded newline / control character, plain) and optionally a default route; 1 in 4 secret-bearing layers is syntactically broken so that the parser stops on or next to the secret line (missing comma, raw control character, truncation, unquoted value, trailing garbage); environment supply RIP_OPENRESPONSES_ENDPOINT/_MODEL (engine-level configuration through the daemon's own from_env) and the key through RIP_OPENRESPONSES_API_KEY / OPENAI_API_KEY / OPENROUTER_API_KEY; an invalid RIP_OPENRESPONSES_TOOL_CHOICE; per-request endpoint overrides; request dumping on or off; endpoint reachable or not; a provider script of 2-6 responses (success, tool calls, HTTP 400-500 whose body echoes the request body, close without response, garbage, connection drop, a call that makes the follow-up fail validation); 2-5 inputs (thread prompt, thread tool envelope that succeeds or fails, thread-less session prompt, GET /config/doctor). The two canaries (API key, header value) must not occur in: any file under the scratch root except the config sources themselves (event log — reported with the frame type —, snapshots, artifacts incl. request dumps, sidecar caches, workspace files, captured process stdout and stderr), any buffer passed to write() on a file path anywhere (seam observer: catches transient files), any router response incl. /config/doctor and the session/thread SSE streams. Reach probes: the secret actually reached the provider stub in the Authorization / custom header. distinct = hash of the scenario; non-trivial = a secret reached the provider or a secret-bearing config file was broken".into()
+        "one run = one seeded scenario: 0-3 configuration layers (global ~/.rip, RIP_CONFIG_HOME, RIP_CONFIG, project rip.json(c) in the workspace or its parent up to the git root; JSON or JSONC) each defining the provider with an inline api_key, an env reference or none, 0-2 headers (secret value, secret with trailing CR / embedded newline / control character, plain) and optionally a default route; 1 in 4 secret-bearing layers is syntactically broken so that the parser stops on or next to the secret line (missing comma, raw control character, truncation, unquoted value, trailing garbage) or keeps valid syntax but gives the secret-bearing field the wrong type (headers as one string, api_key as an array); environment supply RIP_OPENRESPONSES_ENDPOINT/_MODEL (engine-level configuration through the daemon's own from_env) and the key through RIP_OPENRESPONSES_API_KEY / OPENAI_API_KEY / OPENROUTER_API_KEY, 1 in 4 with stray whitespace around it (trailing CR, padding spaces, trailing newline); an invalid RIP_OPENRESPONSES_TOOL_CHOICE; per-request endpoint overrides; request dumping on or off; endpoint reachable or not; a provider script of 2-6 responses (success, tool calls, HTTP 400-500 whose body echoes the request body, close without response, garbage, connection drop, a call that makes the follow-up fail validation); 2-5 inputs (thread prompt, thread tool envelope that succeeds or fails, thread-less session prompt, GET /config/doctor). The two canaries (API key, header value) must not occur in: any file under the scratch root except the config sources themselves (event log — reported with the frame type —, snapshots, artifacts incl. request dumps, sidecar caches, workspace files, captured process stdout and stderr), any buffer passed to write() on a file path anywhere (seam observer: catches transient files), any router response incl. /config/doctor and the session/thread SSE streams. Reach probes: the secret actually reached the provider stub in the Authorization / custom header. distinct = hash of the scenario; non-trivial = a secret reached the provider or a secret-bearing config file was broken".into()
     }
     fn assumptions(&self) -> Vec<String> {
         vec![
